@@ -5,7 +5,7 @@ by the reference model) + the sample corpus decoded by the reference.
 Oracle: refbufr values / labels, position by position (DESIGN 7-C01)."""
 import json
 
-from vlib import runner, sut, corpusio
+from vlib import runner, sut, corpusio, fuzz
 from vlib.compare import first_value_diff
 from vlib.runner import Outcome, Report
 from gen import messages as gmsg
@@ -149,6 +149,7 @@ def run(tier, seed):
         rep.add_case(case.key(), out.nontrivial, out.classes, case.summary() if len(rep.samples) < 8 else None)
         for clause, detail in out.failures:
             rep.add_failure('corpus: ' + clause, detail, case.to_json(), stage='corpus')
+    fuzz.run_structured(rep, 'checks.c01', _fuzz_gen, tier)
     return rep.finish(SIGNATURES)
 
 
@@ -205,3 +206,11 @@ def _k1(clause, f):
 
 
 SIGNATURES = {'marker_operator_under_open_204': _k1}
+
+
+# ---- coverage-guided stage (thorough): the same generator and oracle, decisions taken from fuzzer bytes --------
+def _fuzz_gen(ch):
+    return gmsg.gen_case(ch, gen_opts('quick'))
+
+
+fuzz_case = fuzz.structured_target(_fuzz_gen, check_case)
